@@ -18,6 +18,9 @@ class Mock(A.Obj):
 
 
 def mock(**attrs):
+    if '__class__' not in attrs:
+        cn = attrs.get('name') if isinstance(attrs.get('name'), str) else 'Model'
+        attrs['__class__'] = A.Obj('mock', __name__=cn, __qualname__=cn, __module__='model', __class__=None)
     return A.Obj('mock', **attrs)
 
 
@@ -133,3 +136,13 @@ def _ordereddict(interp, args, kwargs, node, env):
 
 A.EXTERNAL_CALLS['collections.defaultdict'] = _defaultdict
 A.EXTERNAL_CALLS['collections.OrderedDict'] = _ordereddict
+
+
+def _re_sub(interp, args, kwargs, node, env):
+    import re
+    if all(isinstance(a, str) for a in args[:3]):
+        return re.sub(args[0], args[1], args[2])
+    return A.Opaque('re.sub')
+
+
+A.EXTERNAL_CALLS['re.sub'] = _re_sub
